@@ -27,7 +27,11 @@ def stages(tier, seed, bins):
         for m in ALL:
             N = rnd.choice([16, 24, 40])
             kind = rnd.choice(["gauss", "swiss", "mix"])
-            D = 3 if kind == "swiss" else rnd.choice([3, 4, 5])
+            # (feature dimension on both sides of the number of neighbours: a rule such as "regularise only when k > D" reads the
+            # dimension off the features callback, which only some call forms attach)
+            D = 3 if kind == "swiss" else rnd.choice([3, 4, 5, 8, 12])
+            if rep % 2 == 0:
+                kind, D = rnd.choice(["gauss", "mix"]), rnd.choice([20, 30])  # k <= D in every even repetition (also after one doubling by the connectivity check), k > D in the odd ones
             td = rnd.choice([1, 2])
             if m == "tsne":
                 N, td = 18, 2
